@@ -23,7 +23,6 @@ import copy
 
 KEEP_CHAINS = (
     "<hand_range::hand_range_token::HandRangeToken as std::iter::IntoIterator>::into_iter",
-    "<hand_range::rank_pair::RankPair as std::iter::IntoIterator>::into_iter",
     "<card::rank_range::RankRange as std::iter::IntoIterator>::into_iter",
     "<card::suit_range::SuitRange as std::iter::IntoIterator>::into_iter",
     "<hand_range::hand_range::HandRange as std::iter::FromIterator<",
